@@ -22,7 +22,7 @@
    Everything else (map form, labels, start value, errors, local caches) is unconditional. *)
 Require Import PV.Base.Prelude PV.Base.Utf8 PV.Base.Fnv PV.Base.F64 PV.Base.Utf8Facts.
 Require Import PV.Model.Proto PV.Model.Desc PV.Model.Value PV.Model.Hist PV.Model.Vec PV.Model.Registry PV.Model.World.
-Require Import PV.Proofs.DescFacts PV.Proofs.C05Facts PV.Proofs.C05More.
+Require Import PV.Proofs.DescFacts PV.Proofs.C05Facts PV.Proofs.C05More PV.Proofs.C05Spec PV.Spec.SpecC05.
 From Coq Require Import Permutation.
 Open Scope N_scope.
 
@@ -222,6 +222,47 @@ Example c05_with_hypotheses_satisfiable :
   /\ forallb keeps [OpInc 1] = true.
 Proof. cbn zeta. split; [apply reachable_ok|]. vm_compute. repeat split. Qed.
 
+(* ---------- the model satisfies the property as written from the text ---------- *)
+(* [spec_c05] (Spec/SpecC05.v) is the executable statement of C05 written from the property text: tuples are
+   compared for EQUALITY, children are observed through behaviour.  Full statement wanted:
+       forall ops, no_collision ops = true -> spec_c05 ops (run world0 ops) = true
+   for every history over the operations of World.v.  Proved, by a simulation between the abstract
+   tuple -> child ledger of the spec and the world model (Proofs/C05Spec.v), for the scenario language
+   [in_domain]: the first operation creates ONE vector successfully, and every later operation is one of
+     counter / gauge vectors (in_domain_value, the complete language of the generator for these kinds):
+       OpWith, OpWithMap, OpRemove, OpRemoveMap, OpReset, OpInc, OpIncBy, OpDec, OpAdd, OpSub, OpSet, OpGet,
+       OpCollect, OpClone, OpLocal (on slot 0), OpLvInc (increment of the vector's number type), OpFlush,
+       OpLvRemove - each on ANY slot, well-typed or not;
+     histogram vectors with valid buckets and fewer than 2^64 operations (in_domain_hist):
+       OpWith, OpWithMap, OpRemove, OpRemoveMap, OpReset (on slot 0), OpObserve, OpSampleCount, OpSampleSum,
+       OpCollect, OpClone.
+   Not covered (hence _partial): local HISTOGRAM vectors (OpLocal / OpLvObserve / OpFlush / OpLvRemove on a
+   histogram vector: a flushed batch adds its locally accumulated float sum, which the spec's ledger books value
+   by value - equal only when the sums are exact, as the generator guarantees), OpDrop, several vectors or
+   plain metrics in one scenario.
+   [no_collision ops]: the label-value tuples named in ops have pairwise distinct FNV-1a-64 keys unless equal
+   (decidable; evaluated by vm_compute). *)
+Theorem c05_spec_model_partial ops :
+  in_domain ops = true -> no_collision ops = true -> spec_c05 ops (run world0 ops) = true.
+Proof. exact (spec_model ops). Qed.
+(* counter and gauge vectors, local counter vectors included *)
+Theorem c05_spec_model_value ops :
+  in_domain_value ops = true -> no_collision ops = true -> spec_c05 ops (run world0 ops) = true.
+Proof. exact (spec_model_value ops). Qed.
+(* the only way the model contradicts the text on such a scenario is the recorded class: two DIFFERENT tuples of
+   the scenario with one FNV-1a-64 key *)
+Theorem c05_model_violation_needs_collision ops :
+  in_domain ops = true -> spec_c05 ops (run world0 ops) = false ->
+  exists a b, In a (all_tuples (scenario_names ops) (tl ops)) /\ In b (all_tuples (scenario_names ops) (tl ops))
+              /\ a <> b /\ hk a = hk b.
+Proof. exact (model_violation_needs_collision ops). Qed.
+(* non-vacuity: the boundary-shift corpus scenario of tools/p_C05.py (IntCounterVec; positional and map requests for
+   the cuts of "abc"; a local vector) and a histogram scenario are in the language and collision-free *)
+Example c05_spec_model_hypotheses_satisfiable :
+  in_domain corpus_boundary_cu = true /\ no_collision corpus_boundary_cu = true
+  /\ in_domain small_hist_scenario = true /\ no_collision small_hist_scenario = true.
+Proof. exact corpus_in_domain. Qed.
+
 Check c05_enc_inj : forall t1 t2, wf_strs t1 -> wf_strs t2 ->
   (label_values_preimage t1 = label_values_preimage t2 <-> t1 = t2).
 Check c05_same_child_iff : forall w vi v t1 t2 h1 h2 w1 hd1 mid w3 hd2,
@@ -255,6 +296,15 @@ Check c05_local_key_iff : forall d t1 t2 h1 h2, wf_strs t1 -> wf_strs t2 ->
   fnv_injective_on [label_values_preimage t1; label_values_preimage t2] ->
   (h1 = h2 <-> t1 = t2).
 
+Check c05_spec_model_partial : forall ops,
+  in_domain ops = true -> no_collision ops = true -> spec_c05 ops (run world0 ops) = true.
+Check c05_spec_model_value : forall ops,
+  in_domain_value ops = true -> no_collision ops = true -> spec_c05 ops (run world0 ops) = true.
+Check c05_model_violation_needs_collision : forall ops,
+  in_domain ops = true -> spec_c05 ops (run world0 ops) = false ->
+  exists a b, In a (all_tuples (scenario_names ops) (tl ops)) /\ In b (all_tuples (scenario_names ops) (tl ops))
+              /\ a <> b /\ hk a = hk b.
+
 Print Assumptions c05_enc_inj.
 Print Assumptions c05_reachable_ok.
 Print Assumptions c05_same_child_iff.
@@ -283,3 +333,7 @@ Print Assumptions c05_refuted_collision.
 Print Assumptions c05_unconditional_iff_false.
 Print Assumptions c05_hypotheses_satisfiable.
 Print Assumptions c05_with_hypotheses_satisfiable.
+Print Assumptions c05_spec_model_partial.
+Print Assumptions c05_spec_model_value.
+Print Assumptions c05_model_violation_needs_collision.
+Print Assumptions c05_spec_model_hypotheses_satisfiable.
